@@ -260,10 +260,21 @@ template<class T> static void run_v(const char* label){
 template<class T> static void nonan(T* p,int n){ if constexpr(std::is_floating_point<T>::value) for(int i=0;i<n;i++) if(isnan_b(p[i])) p[i]=(T)(0.25+i); }
 template<class T> static void fin(T* p,int n,double lim){ if constexpr(std::is_floating_point<T>::value) for(int i=0;i<n;i++) if(!isfinite_b(p[i])||std::fabs((double)p[i])>lim) p[i]=(T)(0.75*i-1); }
 #define REG(T,OP,PREP) vjobs<T>().push_back(VJob<T>{&OP,PREP});
+// ==/!= operands: half of the inputs are equal vectors that differ in at most one lane by a zero sign, a NaN, or one ulp
+// (equality must be decided on values: +0 == -0, NaN != NaN), the other half are independent vectors
+template<class T> static void eqprep(InV<T>& x){
+	if(!(x.mode&1)) return; for(int i=0;i<4;i++) x.b[i]=x.a[i]; int lane=(x.mode>>1)&3; u32 variant; memcpy(&variant,&x.c[0],sizeof(T)<4?sizeof(T):4); variant%=5;
+	if constexpr(std::is_floating_point<T>::value){ typedef typename fp<T>::U U;
+		if(variant==1){ x.a[lane]=(T)0; x.b[lane]=fp<T>::make(U(1)<<(sizeof(U)*8-1)); }
+		else if(variant==2){ T n=fp<T>::make((((U(1)<<fp<T>::EXPB)-1)<<fp<T>::MANT)|(U(1)<<(fp<T>::MANT-1))); x.a[lane]=n; x.b[lane]=n; }
+		else if(variant==3){ x.b[lane]=fp<T>::make(fp<T>::raw(x.a[lane])^1); if(isnan_b(x.b[lane])) x.b[lane]=x.a[lane]; }
+		else if(variant==4){ for(int i=0;i<4;i++) if(x.a[i]==0){ x.b[i]=(T)(-x.a[i]); } }
+	} else { if(variant==3) x.b[lane]=(T)(x.a[lane]^1); }
+}
 template<class T> static void reg_arith(vf::Op& add,vf::Op& sub,vf::Op& mul,vf::Op& neg,vf::Op& adds,vf::Op& muls,vf::Op& ssub,vf::Op& eq,vf::Op& ne,vf::Op& mn,vf::Op& mx,vf::Op& cl,vf::Op& ab){
 	auto small=[](InV<T>& x){ if constexpr(std::is_integral<T>::value && std::is_signed<T>::value) for(int i=0;i<4;i++){ x.a[i]%=30000; x.b[i]%=30000; x.c[i]%=30000; } };
 	auto nn=[](InV<T>& x){ nonan(x.a,4); nonan(x.b,4); nonan(x.c,4); };
-	REG(T,add,small) REG(T,sub,small) REG(T,mul,small) REG(T,neg,small) REG(T,adds,small) REG(T,muls,small) REG(T,ssub,small) REG(T,eq,nullptr) REG(T,ne,nullptr) REG(T,mn,nn) REG(T,mx,nn)
+	REG(T,add,small) REG(T,sub,small) REG(T,mul,small) REG(T,neg,small) REG(T,adds,small) REG(T,muls,small) REG(T,ssub,small) vjobs<T>().push_back(VJob<T>{&eq,eqprep<T>}); vjobs<T>().push_back(VJob<T>{&ne,eqprep<T>}); REG(T,mn,nn) REG(T,mx,nn)
 	vjobs<T>().push_back(VJob<T>{&cl,[](InV<T>& x){ nonan(x.a,4); nonan(x.b,4); nonan(x.c,4); for(int i=0;i<4;i++) if(x.c[i]<x.b[i]) std::swap(x.b[i],x.c[i]); }});
 	vjobs<T>().push_back(VJob<T>{&ab,[](InV<T>& x){ if constexpr(std::is_integral<T>::value && std::is_signed<T>::value) for(int i=0;i<4;i++) if(x.a[i]==std::numeric_limits<T>::min()) x.a[i]=7; }});
 }
